@@ -6,8 +6,11 @@ CONSTANTS
  ArrayLens = {}
  NVals = 0
  MaxOps = 0
+ PoolTypeSeqs <- PoolsNone
+ PoolLens <- LensNone
+ PoolSetIdx = {}
  KeepHist = FALSE
-INVARIANTS TypeOK
-PROPERTIES OrderOnlyLater
+INVARIANTS TypeOK WrittenObjectIntact
+PROPERTIES OrderOnlyLater InputsUntouched
 POSTCONDITION TraceAccepted
 CHECK_DEADLOCK FALSE
